@@ -209,3 +209,12 @@ Example C02_ex : exists st',
     Ok (mkTx [(2, max_seq); (1, max_seq)] [(std_dest 7, 60000); (std_dest 8, 30000); (std_dest 2, 24910)] 5090, st')
   /\ w_reserved st' = [2; 1].
 Proof. destruct ex_auto_create as [st' [H1 [H2 _]]]. exists st'. split; assumption. Qed.
+
+(* the literals of the selection model ARE the compiled code's: coq/Gen/Consts.v is regenerated on every run from
+   blockchain.GetMaxStandardTxSize() and consensus.MinRelayTxFee; the selector keeps max_standard_tx_size / 154
+   candidates (masswallet/utxo_selector.go) *)
+Theorem C02_selector_capacity_is_the_code :
+  max_standard_tx_size = MW.Gen.Consts.MaxStandardTxSize /\
+  Z.of_nat sel_k = MW.Gen.Consts.MaxStandardTxSize / input_size.
+Proof. split; reflexivity. Qed.
+Print Assumptions C02_selector_capacity_is_the_code.
